@@ -64,6 +64,14 @@ func (w *vpRW) Write(b []byte) (int, error) {
 func vpRequest(method string, hdr http.Header, id identity.Identity) *http.Request {
 	r := &http.Request{Method: method, Header: hdr, URL: &url.URL{Path: "/"}, RemoteAddr: "192.0.2.9:4242", RequestURI: "/connect"}
 	if id != nil {
+		// the identity as EnrichContext leaves it before any middleware runs: the peer address and the
+		// client address (first X-Forwarded-For element or the peer's host) are recorded as attributes
+		if id.GetAttribute(identity.AttrRemoteAddr) == nil {
+			id.SetAttribute(identity.AttrRemoteAddr, r.RemoteAddr)
+		}
+		if id.GetAttribute(identity.AttrClientIp) == nil {
+			id.SetAttribute(identity.AttrClientIp, "198.51.100.7")
+		}
 		r = identity.AddToRequestCtx(id, r)
 	}
 	return r
